@@ -342,7 +342,12 @@ def check_edit(name, ver, text, base_key, kind, pos, edited):
     try:
         p = parse(name, edited, ver)
     except Exception as e:  # noqa
-        return "error", f"{type(e).__name__}@{inner_lib_function(e.__traceback__)}"
+        tok = ""
+        if type(e).__name__ == "UnexpectedToken":
+            tok = f"[{getattr(getattr(e, 'token', None), 'type', '?')}]"
+        elif type(e).__name__ == "UnexpectedCharacters":
+            tok = f"[{getattr(e, 'char', '?')!r}]"
+        return "error", f"{type(e).__name__}{tok}@{inner_lib_function(e.__traceback__)}"
     if p == {}:
         return "error", "not-parsed-as-this-version"
     if flows_key(p) != base_key:
@@ -363,8 +368,8 @@ def l_base_task(task):
 def l_edit_task(task):
     """task = (name, ver, text, kind, lo, hi)  kind in POS_KINDS (positions[lo:hi], one at
     a time) | 'all:<kind>' | 'scale:<k>'."""
-    name, ver, text, kind, lo, hi = task
-    _v, base_key, nflows, err = base_of(name, ver, text)
+    name, ver0, text, kind, lo, hi = task
+    ver, base_key, nflows, err = base_of(name, ver0, text)  # ver = the version the file really parses with
     assert base_key is not None, (name, err)
     out = {"evals": 0, "changed_and_parsed": 0, "unchanged": 0, "fails": [], "not_scalable": 0, "by_kind": {}}
 
